@@ -200,16 +200,33 @@ def spelling_lattice(ctx, seed):
                     ctx.fail(f"spelling:obj:{','.join(names)}", f"vector.obj raises {type(e).__name__}: {e}"[:200], {"names": list(names)})
                     continue
                 gets = ["x", "y"] + (["z"] if l_ else []) + (["t", "tau"] if t_ else [])
+                mom_flavor = any(nm in ("px", "py", "pt", "pz", "E", "e", "energy", "M", "m", "mass") for nm in names)
+                if mom_flavor:
+                    gets += ["px", "pt"] + (["pz"] if l_ else []) + (["E", "mass", "energy", "M"] if t_ else [])
+                # conversions read every stored coordinate again (C04): same-system and Cartesian / polar targets
+                convs = [("to_xy", "x")] + ([("to_xyz", "z"), ("to_rhophieta", "eta")] if l_ else []) + \
+                        ([("to_xyzt", "t"), ("to_rhophietatau", "tau"), ("to_xyztau", "tau"), ("to_rhophithetat", "t")] if t_ else [])
                 cols = {nm: numpy.array([v[i] for v in vals]) for i, nm in enumerate(names)}
                 builders = {"vector.array": lambda: vector.array(cols), "vector.zip": lambda: vector.zip({nm: ak.Array(c) for nm, c in cols.items()}),
                             "vector.Array": lambda: vector.Array(ak.Array([dict(zip(names, v)) for v in vals]))}
+                # an Awkward record array that KEEPS the spelled field names (documented use: with_name + registered behaviors)
+                dimn = 2 + bool(l_) + bool(t_)
+                builders["ak.Array(with_name)"] = lambda: ak.Array([dict(zip(names, v)) for v in vals],
+                                                                   with_name=("Momentum" if mom_flavor else "Vector") + f"{dimn}D",
+                                                                   behavior=vector.backends.awkward.behavior)
                 for bn, b in builders.items():
                     k += 1
                     try:
                         arr = b()
-                        for g in gets:
-                            got = [float(q) for q in (numpy.asarray(getattr(arr, g)) if bn == "vector.array" else ak.to_list(getattr(arr, g)))]
-                            want = [float(getattr(x, g)) for x in o]
+                        for g in gets + convs:
+                            if isinstance(g, tuple):
+                                gv = getattr(getattr(arr, g[0])(), g[1])
+                                want = [float(getattr(getattr(x, g[0])(), g[1])) for x in o]
+                                g = f"{g[0]}().{g[1]}"
+                            else:
+                                gv = getattr(arr, g)
+                                want = [float(getattr(x, g)) for x in o]
+                            got = [float(q) for q in (numpy.asarray(gv) if bn == "vector.array" else ak.to_list(gv))]
                             if not all(close(p_, q_) for p_, q_ in zip(got, want)):
                                 ctx.fail(f"spelling:{bn}:{','.join(names)}:{g}", f"{bn} with fields {names}: .{g} = {got}, vector.obj with the same keywords gives {want}", {"names": list(names), "values": vals})
                                 break
